@@ -84,7 +84,7 @@ func (f *Frame) specSort(name string) (Sort, types.Type) {
 	if strings.HasPrefix(name, "(Array ") {
 		return Sort(name), nil
 	}
-	if t := eng.lookupType(name, f.fn); t != nil {
+	if t := f.lookupType(name); t != nil {
 		return f.un.u.SortOf(t), t
 	}
 	f.fail("unknown sort or type %q", name)
@@ -475,7 +475,7 @@ func (f *Frame) evalCall(x ECall, c *evalCtx) Val {
 				tn = "*" + in.X.(EIdent).Name + "." + in.Name
 			}
 		}
-		t := un.eng.lookupType(tn, f.fn)
+		t := f.lookupType(tn)
 		if t == nil {
 			f.fail("typeis: unknown type %s", tn)
 		}
@@ -484,16 +484,29 @@ func (f *Frame) evalCall(x ECall, c *evalCtx) Val {
 		// unbox(x, T): payload of interface x as T
 		v := f.eval(x.Args[0], c)
 		tn := exprTypeName(x.Args[1])
-		t := un.eng.lookupType(tn, f.fn)
+		t := f.lookupType(tn)
 		if t == nil {
 			f.fail("unbox: unknown type %s", tn)
 		}
 		return Val{T: u.Unbox(IVal(v.T), u.SortOf(t)), Go: t}
+	case "update":
+		// update(a, k, v): the array a with a[k] = v
+		a := f.eval(x.Args[0], c)
+		k := f.eval(x.Args[1], c)
+		v := f.eval(x.Args[2], c)
+		return Val{T: Store(a.T, k.T, v.T)}
+	case "asiface":
+		// asiface(x): the Go value x stored in an interface
+		v := f.eval(x.Args[0], c)
+		if v.Go == nil {
+			f.fail("asiface of untyped value")
+		}
+		return Val{T: IfaceMk(u.TypeTag(v.Go), u.Box(v.T)), Dyn: v.Go}
 	case "asptr":
 		// asptr(x, *T): the integer x read as a pointer of the given type (ghost references)
 		v := f.eval(x.Args[0], c)
 		tn := exprTypeName(x.Args[1])
-		t := un.eng.lookupType(tn, f.fn)
+		t := f.lookupType(tn)
 		if t == nil {
 			f.fail("asptr: unknown type %s", tn)
 		}
@@ -518,7 +531,7 @@ func (f *Frame) evalCall(x ECall, c *evalCtx) Val {
 		if !ok {
 			f.fail("oldrows needs a type in quotes")
 		}
-		t := un.eng.lookupType(lit.V, f.fn)
+		t := f.lookupType(lit.V)
 		if t == nil {
 			f.fail("oldrows: unknown type %s", lit.V)
 		}
@@ -592,6 +605,9 @@ func (f *Frame) applySpec(d *Contract, args []Val, c *evalCtx) Val {
 	un := f.un
 	if len(args) != len(d.Params) {
 		f.fail("%s expects %d arguments", d.Name, len(d.Params))
+	}
+	if d.Body != nil && d.Opaque {
+		return f.applyOpaque(d, args, c)
 	}
 	if d.Body == nil || d.Opaque {
 		// uninterpreted: a function of its arguments only
@@ -836,4 +852,136 @@ func (f *Frame) evalLV(e Expr, c *evalCtx) *LVal {
 	}
 	f.fail("not a location")
 	return nil
+}
+
+// lookupType resolves a type name relative to the function being verified (or, for interface-method
+// contracts evaluated without a function, relative to the package of the contract).
+func (f *Frame) lookupType(name string) types.Type {
+	if f.fn != nil {
+		if t := f.un.eng.lookupType(name, f.fn); t != nil {
+			return t
+		}
+	}
+	if f.pkgPath != "" {
+		return f.un.eng.lookupTypeIn(name, f.pkgPath)
+	}
+	for fr := f.parent; fr != nil; fr = fr.parent {
+		if fr.fn != nil {
+			if t := f.un.eng.lookupType(name, fr.fn); t != nil {
+				return t
+			}
+		}
+	}
+	return nil
+}
+
+// specParamEnv binds the parameters of a spec function to argument values.
+func (f *Frame) specParamEnv(d *Contract, args []Val) map[string]Val {
+	env := map[string]Val{}
+	for i, p := range d.Params {
+		a := args[i]
+		if a.T.Sort == "nil" {
+			s, gt := f.specSort(p.Type)
+			a = Val{T: f.un.u.Zero(s), Go: gt}
+		}
+		if a.Go == nil && p.Type != "" {
+			if _, gt := f.specSort(p.Type); gt != nil {
+				a.Go = gt
+			}
+		}
+		env[p.Name] = a
+	}
+	return env
+}
+
+// applyOpaque: an opaque spec function with a body is an uninterpreted function of its arguments AND of the
+// heap arrays its body reads (its footprint). Units that `reveal` it also get its definition, as an axiom
+// quantified over the parameters for the heap it is applied to.
+func (f *Frame) applyOpaque(d *Contract, args []Val, c *evalCtx) Val {
+	un := f.un
+	eng := un.eng
+	fp, ok := eng.footprints[d.Name]
+	if !ok && eng.fpBusy[d.Name] {
+		// recursive occurrence while the footprint is being computed: contributes nothing new
+		rs, rt := f.specSort(d.Sort)
+		return Val{T: un.u.Zero(rs), Go: rt}
+	}
+	if !ok {
+		eng.fpBusy[d.Name] = true
+		defer delete(eng.fpBusy, d.Name)
+		saved := un.rec
+		un.rec = map[string]bool{}
+		un.inQuant++
+		func() {
+			defer func() { un.inQuant--; rec := un.rec; un.rec = saved; _ = rec }()
+			nc := &evalCtx{env: f.specParamEnv(d, args), cur: c.cur, old: c.old, depth: c.depth + 1}
+			recd := un.rec
+			f.eval(d.Body, nc)
+			for k := range recd {
+				if k != "$next" && !isLocalKey(k) {
+					fp = append(fp, k)
+				}
+			}
+		}()
+		sortStrings(fp)
+		eng.footprints[d.Name] = fp
+		for _, hn := range fp {
+			eng.heapSortHint[hn] = un.heapSort[hn]
+		}
+	}
+	rs, rt := f.specSort(d.Sort)
+	var ts []Term
+	var as []Sort
+	for _, hn := range fp {
+		hs, ok := un.heapSort[hn]
+		if !ok {
+			hs = eng.heapSortHint[hn]
+		}
+		h := un.H(c.cur, hn, hs)
+		ts = append(ts, h)
+		as = append(as, h.Sort)
+	}
+	nh := len(ts)
+	for _, a := range f.specParamOrder(d, args) {
+		ts = append(ts, a.T)
+		as = append(as, a.T.Sort)
+	}
+	eng.declareUF(d.Name, as, rs)
+	app := mk(rs, "uf_"+d.Name, ts...)
+	if un.reveals[d.Name] && un.axHeaps == nil {
+		key := d.Name
+		for _, h := range ts[:nh] {
+			key += "|" + h.S
+		}
+		if !un.revealed[key] {
+			un.revealed[key] = true
+			var bvs []Term
+			var bargs []Val
+			for i, p := range d.Params {
+				srt, gt := f.specSort(p.Type)
+				qcounter++
+				bv := Term{fmt.Sprintf("%s!rv%d", p.Name, qcounter), srt}
+				_ = i
+				bvs = append(bvs, bv)
+				bargs = append(bargs, Val{T: bv, Go: gt})
+			}
+			un.inQuant++
+			nc := &evalCtx{env: f.specParamEnv(d, bargs), cur: c.cur, old: c.old, depth: c.depth + 1}
+			body := f.eval(d.Body, nc).T
+			un.inQuant--
+			lhs := mk(rs, "uf_"+d.Name, append(append([]Term{}, ts[:nh]...), bvs...)...)
+			ax := Forall(bvs, Eq(lhs, body), lhs)
+			un.decls = append(un.decls, "(assert "+ax.S+")")
+		}
+	}
+	return Val{T: app, Go: rt}
+}
+
+func (f *Frame) specParamOrder(d *Contract, args []Val) []Val {
+	env := f.specParamEnv(d, args)
+	var out []Val
+	for _, p := range d.Params {
+		out = append(out, env[p.Name])
+	}
+	return out
 }
